@@ -66,13 +66,21 @@ MonNames == <<<<74, 97, 110>>, <<70, 101, 98>>, <<77, 97, 114>>, <<65, 112, 114>
 
 \* ---- markupsafe.escape: "Replace the characters &, <, >, ', and " in the string with HTML-safe sequences." ----
 EscC(c) == CASE c = 38 -> E_AMP [] c = 60 -> E_LT [] c = 62 -> E_GT [] c = 34 -> E_QUOT [] c = 39 -> E_APOS [] OTHER -> <<c>>
-RECURSIVE Escape(_)
-Escape(s) == IF s = <<>> THEN <<>> ELSE EscC(Head(s)) \o Escape(Tail(s))
+\* concatenation of the members f[a..b] of a sequence of sequences, balanced (no quadratic copying)
+RECURSIVE FlatRange(_, _, _)
+FlatRange(f, a, b) == IF a > b THEN <<>> ELSE IF a = b THEN f[a]
+                      ELSE LET m == (a + b) \div 2 IN FlatRange(f, a, m) \o FlatRange(f, m + 1, b)
+Escape(s) == FlatRange([i \in 1..Len(s) |-> EscC(s[i])], 1, Len(s))
 NeedsEscape(s) == \E i \in 1..Len(s) : s[i] \in {38, 60, 62, 34, 39}
-RECURSIVE BrOnly(_)
-BrOnly(s) == IF s = <<>> THEN <<>> ELSE (IF Head(s) = LF THEN T_BR ELSE <<Head(s)>>) \o BrOnly(Tail(s))
+BrOnly(s) == FlatRange([i \in 1..Len(s) |-> IF s[i] = LF THEN T_BR ELSE <<s[i]>>], 1, Len(s))
 EscapeBr(s) == BrOnly(Escape(s))
-LinesOf(s) == SplitOn(s, LF, <<>>)
+\* the lines of a text (split at LF), by positions
+LinesOf(s) == LET cut == <<0>> \o SelectSeq([i \in 1..Len(s) |-> i], LAMBDA i : s[i] = LF) \o <<Len(s) + 1>>
+              IN [k \in 1..(Len(cut) - 1) |-> IF cut[k] + 1 > cut[k + 1] - 1 THEN <<>> ELSE SubSeq(s, cut[k] + 1, cut[k + 1] - 1)]
+\* number of UTF-8 bytes of a text
+RECURSIVE Utf8LenFrom(_, _)
+Utf8LenFrom(s, i) == IF i > Len(s) THEN 0 ELSE (IF s[i] < 128 THEN 1 ELSE IF s[i] < 2048 THEN 2 ELSE IF s[i] < 65536 THEN 3 ELSE 4) + Utf8LenFrom(s, i + 1)
+Utf8Len(s) == Utf8LenFrom(s, 1)
 
 \* ---- http_date: IMF-fixdate in GMT of a civil time <<y, mo, d, h, mi, s, utc offset in seconds>> ----
 IsLeap(y) == ((y % 4) = 0 /\ (y % 100) # 0) \/ (y % 400) = 0
@@ -99,7 +107,6 @@ DateDomain(v) == /\ Len(v) = 7 /\ v[1] \in 2..9998 /\ v[2] \in 1..12 /\ v[3] \in
 
 \* ---- urllib.parse.quote over text: unreserved ASCII and the safe set stay, everything else is %XX of its UTF-8 bytes ----
 QuoteC(c, safe) == IF c < 128 /\ (Unreserved(c) \/ c \in safe) THEN <<c>> ELSE PctEncode(Utf8Of(c), {})
-RECURSIVE QuoteText(_, _)
-QuoteText(s, safe) == IF s = <<>> THEN <<>> ELSE QuoteC(Head(s), safe) \o QuoteText(Tail(s), safe)
+QuoteText(s, safe) == FlatRange([i \in 1..Len(s) |-> QuoteC(s[i], safe)], 1, Len(s))
 SubDelims == {33, 36, 38, 39, 40, 41, 42, 43, 44, 59, 61}          \* ! $ & ' ( ) * + , ; =
 =============================================================================
